@@ -248,6 +248,13 @@ def evaluate(spec, route, probes=None, twin_verdicts=None, want=None):
     try:
         text = _write(route, S)
     except Exception as e:
+        if isinstance(e, ValueError) and "are incompatible, reason: min " \
+                "value" in str(e):
+            # parse_checks deliberately refuses a contradictory
+            # greater_than_or_equal_to / less_than_or_equal_to pair; such a
+            # schema is not "built from serialisable parts" -> not judged
+            r.undecided.append("writer-refuses-contradictory-ge-le-pair")
+            return r
         r.fail(f"write-exc:{type(e).__name__}", _exc(e))
         text = None
     r.stages.append("write")
